@@ -524,6 +524,7 @@ Qed.
 Definition c06_valid (c : c06_case) : Prop :=
   match c with
   | KLw P slots R0 kv0 wok evs lists => sorted (events_of slots) /\ Forall (fun e => e_rev e <= top) (events_of slots)
+  | KLf _ _ _ _ _ _ => False      (* runs with unknown outcomes are outside the theorems (C09): oracle only *)
   end.
 
 Lemma kv_eqb_eq a b : kv_eqb a b = true -> a = b.
@@ -550,7 +551,8 @@ Qed.
 
 Theorem c06_oracle_sound c : c06_valid c -> c06_check c = true -> c06_oracle c = None.
 Proof.
-  destruct c as [P slots R0 kv0 wok evs lists]. cbn [c06_valid c06_check c06_oracle]. intros [Hs Htop] Hc.
+  destruct c as [P slots R0 kv0 wok evs lists|P R0 kv0 evs Rf kvf]; [|intros []].
+  cbn [c06_valid c06_check c06_oracle]. intros [Hs Htop] Hc.
   apply andb_true_iff in Hc as [Hc _]. apply andb_true_iff in Hc as [Hc Hl]. apply andb_true_iff in Hc as [H0 He].
   destruct wok; cbn [negb orb] in *; [|reflexivity].
   apply (list_eqb_eq kv_eqb kv_eqb_eq) in H0. apply (list_eqb_eq ev_eqb ev_eqb_eq) in He.
